@@ -3,7 +3,10 @@
 Theorems: coq/Props/C02.v (about Gen/CoreAmat.v, regenerated from core.py).
 Correspondence: generated model on exact rationals vs core.amat_x (compiled and
 .py_func) on dense random dyadic fields; VolumeModel coefficients vs the hand
-model.  Searcher: independent vectorised numpy FIT operator, full edge basis.
+model; histories on ONE Model object (setter / in-place / augmented / failing
+writes, a VolumeModel after every step) vs Model/ModelHist.v.
+Searcher: independent vectorised numpy FIT operator, full edge basis; numpy
+oracle tracking the current arrays through the same kind of histories.
 """
 import itertools
 
@@ -19,18 +22,29 @@ LEVEL_TEXT = ("Theorems (Props/C02.v) about the kernel translated from core.py o
               "curl^T M_f curl - M_e (2-cell face / 4-cell edge averages), masks the lower PEC boundary, "
               "writes nothing else; its curl-curl part annihilates every discrete gradient; the operator is "
               "(complex-)symmetric, <A e, g> = <e, A g> for all PEC fields (3-D summation by parts). Unbounded "
-              "in shape; tests sample one grid and one field.")
+              "in shape; tests sample one grid and one field. Round 6: a state machine of ONE Model object "
+              "(Model/ModelHist.v: setter, in-place write through the getter, augmented assignment, VolumeModel "
+              "construction, each with its failure outcome) with theorems for ALL states and histories: the "
+              "VolumeModel built after any history returns the coefficient formulas on the arrays left by the "
+              "write operations alone (builds leave no trace, no hidden state), rejected / impossible writes leave "
+              "the Model unchanged, setter = full in-place write, coefficients are cell-local, an in-place write "
+              "to mu_r / property_x reaches the next zeta / eta, zeta = V iff mu_r = 1 in that cell.")
 LEVEL_NOTE = ("Trusted: Coq kernel, py2coq translator (validated by running the generated model on exact "
               "rationals against the compiled kernel and its .py_func), Model/FIT.v as the spec "
               "(cross-checked by an independent numpy operator over the full edge basis). Rounding is "
               "not modelled (exact field arithmetic); 'jit agrees with source to rounding' and the "
-              "VolumeModel coefficient formulas rest on correspondence.")
+              "VolumeModel coefficient formulas rest on correspondence. Model/ModelHist.v is a hand model: it is "
+              "tied to models.py by the history stream (one Model per history, a VolumeModel after every step, "
+              "every outcome and coefficient compared on exact rationals); finite dyadic values only (non-finite "
+              "values and the log maps are C14's), Conductivity and Resistivity mappings.")
 TECHNIQUE = "Coq proof (field/lia) over a model regenerated from source by a Python-ast translator"
 DESIGN_REF = "DESIGN.md section 6 C02"
 GEN = ['CoreAmat']
 PROPS = 'Props/C02.v'
 TRUSTED = ["Model/FIT.v is the specification of 'finite-integration operator' "
-           "(cross-checked by the numpy searcher written from the property text)"]
+           "(cross-checked by the numpy searcher written from the property text)",
+           "Model/ModelHist.v (hand model of Model/VolumeModel as a state machine) is tied to models.py by "
+           "the history correspondence stream and cross-checked by the numpy history oracle of the searcher"]
 ASSUMES = ["IEEE rounding not modelled: jit-vs-source agreement 'to rounding' is "
            "checked by correspondence with tolerance 1e-9 relative"]
 
@@ -210,6 +224,288 @@ def check_volume_model(ctx, n, dis):
                                       has_eps=c['has_eps'], freq=c['freq']) for c in cases[:3]]
 
 
+# ------------------------------------------------- history stream (round 6)
+# ONE Model object is driven through a history of public operations (setter,
+# in-place write through the getter, augmented assignment, failing variants of
+# these) with a VolumeModel built after every step; every outcome and every
+# coefficient is compared with Model/ModelHist.v evaluated on the same history
+# (correspondence) and with an independent numpy oracle that tracks the current
+# arrays (searcher).  A history is a pure function of (ci, hseed).
+H_PN = ['property_x', 'property_y', 'property_z', 'mu_r', 'epsilon_r']
+H_COQ = ['PX', 'PY', 'PZ', 'PMu', 'PEps']
+H_AOP = {'mul': ('AMul', '*='), 'add': ('AAdd', '+='), 'sub': ('ASub', '-='), 'div': ('ADiv', '/=')}
+# option classes of the first eight histories: (anisotropy case, Resistivity?, mu_r form,
+# epsilon_r form); forms: 'one' scalar placeholder 1.0, 'ones' array of ones, 'rand', None
+H_CLASSES = [(0, False, 'one', None), (1, True, 'ones', 'one'), (2, False, 'rand', 'rand'),
+             (3, True, 'one', 'ones'), (3, False, None, 'one'), (0, True, 'one', 'rand'),
+             (1, False, 'rand', None), (2, True, 'ones', 'ones')]
+H_FORMS = ['one', 'ones', 'rand', None]
+H_WAYS = ['slice', 'set_array', 'aug', 'set_scalar']
+H_SLICES = ['[:, :, 1:]', '[0, 0, 0]', '[..., -1]', '[1:, :, :]', '[:]', '[:, 1, :]', 'mask']
+
+
+def _h_index(name, shape, r):
+    if name == 'mask':
+        m = np.zeros(shape, bool)
+        while not m.any():
+            for idx in itertools.product(*[range(k) for k in shape]):
+                m[idx] = r.random() < 0.4
+        return m
+    return eval('np.s_' + name)
+
+
+def history_script(ci, hseed, nrounds=2):
+    """The history as data: construction arguments and a list of operations."""
+    import random
+    r = random.Random(hseed * 1009 + ci)
+    if ci < len(H_CLASSES):
+        casek, resist, mu_form, eps_form = H_CLASSES[ci]
+    else:
+        casek, resist = r.randint(0, 3), r.random() < 0.5
+        mu_form, eps_form = r.choice(H_FORMS), r.choice(H_FORMS)
+    shape = (2, r.randint(2, 3), 2)
+    hs = [[K.dy_pos(r) for _ in range(m)] for m in shape]
+    if ci % 4 == 3:                                   # laboratory scale
+        hs = [[h / 64.0 for h in row] for row in hs]
+
+    def arr(lo=1):
+        a = np.zeros(shape)
+        for idx in itertools.product(*[range(m) for m in shape]):
+            a[idx] = r.randint(lo, 48) / 8.0
+        return a
+
+    def form(f):
+        return {'one': 1.0, 'ones': np.ones(shape), 'rand': arr(), None: None}[f]
+    init = {'property_x': arr()}
+    # placeholders: the anisotropic properties start as copies of property_x in odd classes
+    if casek in (1, 3):
+        init['property_y'] = init['property_x'].copy() if ci % 2 else arr()
+    if casek in (2, 3):
+        init['property_z'] = init['property_x'].copy() if ci % 2 else arr()
+    init['mu_r'] = form(mu_form)
+    init['epsilon_r'] = form(eps_form)
+    freqs = [K.dy_pos(r) * (2.0**22 if ci % 2 == 0 else 1.0) / (256.0 if ci % 4 == 3 else 1.0),
+             -K.dy_pos(r) * (2.0**25 if ci % 2 == 0 else 1.0)]
+    ops = [('build', 0)]
+    nb = 1
+    rejected_at = r.randint(0, 5 * nrounds - 1)
+    n = 0
+    for rnd in range(nrounds):
+        order = list(range(5))
+        r.shuffle(order)
+        for pi in order:
+            way = H_WAYS[(ci + rnd + pi) % 4]
+            if way == 'slice':
+                sl = H_SLICES[r.randint(0, len(H_SLICES) - 1)]
+                index = _h_index(sl, shape, r)
+                scalar = r.random() < 0.4
+                val = r.randint(9, 48) / 8.0 if scalar else arr(9)[index]
+                if np.ndim(val) == 0:
+                    val = float(val)
+                ops.append(('slice', pi, sl, index, val))
+            elif way == 'set_array':
+                a = arr(9)
+                ops.append(('set', pi, a.tolist() if r.random() < 0.3 else
+                            (np.ascontiguousarray(a) if r.random() < 0.5 else np.asfortranarray(a))))
+            elif way == 'set_scalar':
+                ops.append(('set', pi, r.randint(9, 48) / 8.0))
+            else:
+                f = ['mul', 'add', 'sub', 'div'][r.randint(0, 3)]
+                k = {'mul': r.choice([0.5, 2.0, 1.5, 0.75]), 'add': r.randint(1, 16) / 8.0,
+                     'sub': 1.0 / 16.0, 'div': r.choice([0.5, 2.0, 4.0])}[f]
+                ops.append(('aug', pi, f, k))
+            ops.append(('build', nb % 2))
+            nb += 1
+            if n == rejected_at:
+                # fault paths: a rejected assignment (one non-positive value); in every fourth
+                # class also a rejected augmented assignment (stored all the same) and a repair
+                bad = arr(9)
+                bad[tuple(r.randint(0, m - 1) for m in shape)] = r.choice([0.0, -1.5])
+                ops += [('set', pi, bad), ('build', nb % 2)]
+                nb += 1
+                if ci % 4 == 1:
+                    ops += [('aug', pi, 'sub', 64.0), ('build', nb % 2), ('set', pi, arr(9)),
+                            ('build', (nb + 1) % 2)]
+                    nb += 2
+            n += 1
+    return dict(ci=ci, hseed=hseed, casek=casek, resist=resist, mu_form=mu_form,
+                eps_form=eps_form, shape=shape, hs=hs, init=init, freqs=freqs, ops=ops)
+
+
+def _h_describe(op, freqs):
+    if op[0] == 'build':
+        return f"VolumeModel(model, Field(grid, frequency={freqs[op[1]]!r}))"
+    nm = H_PN[op[1]]
+    if op[0] == 'slice':
+        v = op[4]
+        where = f"[np.array({np.asarray(op[3]).tolist()!r})]" if op[2] == 'mask' else op[2]
+        return f"model.{nm}{where} = " + \
+               (repr(v) if np.isscalar(v) else repr(np.asarray(v).tolist()))
+    if op[0] == 'set':
+        v = op[2]
+        return f"model.{nm} = " + (repr(v) if np.isscalar(v) else repr(np.asarray(v).tolist()))
+    return f"model.{nm} {H_AOP[op[2]][1]} {op[3]!r}"
+
+
+def history_run_impl(sc, observe=True):
+    """Drive the real emg3d.Model through the history.  Returns per step
+    (code, coefficients or None, copies of the model's arrays).  With
+    observe=False the model's attributes are NOT read between the steps (reading
+    goes through the public getters and could itself refresh stale state): the
+    arrays are then only recorded after the last step."""
+    import operator
+    import emg3d
+    grid = emg3d.TensorMesh(sc['hs'], (0, 0, 0))
+    kw = {k: (v.copy() if isinstance(v, np.ndarray) else v) for k, v in sc['init'].items()
+          if v is not None}
+    model = emg3d.Model(grid, mapping='Resistivity' if sc['resist'] else 'Conductivity', **kw)
+    fields = [emg3d.Field(grid, frequency=f) for f in sc['freqs']]
+    imap = {'mul': operator.imul, 'add': operator.iadd, 'sub': operator.isub,
+            'div': operator.itruediv}
+    out, vms = [], []
+    for op in sc['ops']:
+        code, co = 0, None
+        try:
+          with np.errstate(divide='ignore'):
+            if op[0] == 'build':
+                vm = emg3d.models.VolumeModel(model, fields[op[1]])
+                co = [np.array(getattr(vm, nm), dtype=complex, copy=True)
+                      for nm in ('eta_x', 'eta_y', 'eta_z', 'zeta')]
+                vms.append((vm, co))
+                code = 3
+            elif op[0] == 'slice':
+                getattr(model, H_PN[op[1]])[op[3]] = op[4]
+            elif op[0] == 'set':
+                v = op[2]
+                setattr(model, H_PN[op[1]], v.copy() if isinstance(v, np.ndarray) else v)
+            else:
+                # what Python does for `model.p f= k`
+                setattr(model, H_PN[op[1]], imap[op[2]](getattr(model, H_PN[op[1]]), op[3]))
+        except TypeError:
+            code = 2
+        except ValueError as e:
+            code = 2 if 'initiated without' in str(e) else 1
+        arrays = None
+        if observe or len(out) == len(sc['ops']) - 1:
+            arrays = [None if getattr(model, nm) is None else np.array(getattr(model, nm), copy=True)
+                      for nm in H_PN]
+        out.append((code, co, arrays))
+    # VolumeModels built earlier must not have changed through later operations
+    stale = [i for i, (vm, co) in enumerate(vms)
+             if any(not np.array_equal(np.asarray(getattr(vm, nm), complex), c)
+                    for nm, c in zip(('eta_x', 'eta_y', 'eta_z', 'zeta'), co))]
+    return out, fields, stale
+
+
+def _h_full(v, shape):
+    return np.ones(shape) * np.asarray(v, float)
+
+
+def history_coq(sc, fields):
+    """Corr file: Model/ModelHist.v run on the same history (Cx Q)."""
+    import scipy.constants as spc
+    shape = sc['shape']
+
+    def lst(a):
+        return '[' + '; '.join(V.qc(x) for x in np.asarray(a, float).ravel(order='F')) + ']'
+
+    def opt(v):
+        return 'None' if v is None else f"(Some {lst(_h_full(v, shape))})"
+    vol = np.multiply.outer(np.multiply.outer(sc['hs'][0], sc['hs'][1]), sc['hs'][2])
+    i = sc['init']
+    ops = []
+    for op in sc['ops']:
+        if op[0] == 'build':
+            f = fields[op[1]]
+            ops.append(f"OBuild {V.qc(complex(f.smu0))} {V.qc(complex(f.sval))}")
+        elif op[0] == 'slice':
+            touched = np.zeros(shape, bool)
+            touched[op[3]] = True
+            vals = np.zeros(shape)
+            vals[op[3]] = op[4]
+            w = [f"Some {V.qc(v)}" if t else 'None'
+                 for t, v in zip(touched.ravel(order='F'), vals.ravel(order='F'))]
+            ops.append(f"OSlice {H_COQ[op[1]]} [{'; '.join(w)}]")
+        elif op[0] == 'set':
+            ops.append(f"OSet {H_COQ[op[1]]} {lst(_h_full(op[2], shape))}")
+        else:
+            ops.append(f"OAug {H_COQ[op[1]]} {H_AOP[op[2]][0]} {V.qc(op[3])}")
+    return (K.CASE_HEADER + "From V Require Import Model.VolumeModel Model.ModelHist.\n"
+            "Definition cpos (c : Q * Q) : bool := match Qnum (fst c) with Zpos _ => true | _ => false end.\n"
+            f"Definition st0 : mstate (F:=Q*Q) := mkM {V.coq_bool(sc['resist'])} {V.qc(spc.epsilon_0)} "
+            f"{lst(vol)} {lst(_h_full(i['property_x'], shape))} {opt(i.get('property_y'))} "
+            f"{opt(i.get('property_z'))} {opt(i['mu_r'])} {opt(i['epsilon_r'])}.\n"
+            "Definition res := Eval vm_compute in run cpos st0 [" + ';\n  '.join(ops) + "].\n"
+            "Definition code (r : outcome (F:=Q*Q)) : Z := match r with Done => 0 | Rejected => 1 "
+            "| NoneErr => 2 | Coeffs _ => 3 end.\n"
+            "Definition vals (r : outcome (F:=Q*Q)) := match r with Coeffs c => flat_map (fun t => "
+            "[out_c (fst (fst (fst t))); out_c (snd (fst (fst t))); out_c (snd (fst t)); out_c (snd t)]) c "
+            "| _ => [] end.\n"
+            "Eval vm_compute in map code (snd res).\n"
+            "Eval vm_compute in flat_map vals (snd res).\n")
+
+
+def _h_brief(sc):
+    return dict(ci=sc['ci'], hseed=sc['hseed'], aniso=sc['casek'],
+                mapping='Resistivity' if sc['resist'] else 'Conductivity',
+                mu_r_initially=sc['mu_form'], epsilon_r_initially=sc['eps_form'],
+                shape=sc['shape'], steps=len(sc['ops']))
+
+
+def check_model_history(ctx, n, dis, hist):
+    scripts = [history_script(ci, ctx.rng.randint(0, 2**30)) for ci in range(n)]
+    runs = [history_run_impl(sc, observe=False) for sc in scripts]
+    runs_obs = [history_run_impl(sc, observe=True) for sc in scripts]
+    res = V.coq_eval_many([(f"c02_h_{sc['ci']}", history_coq(sc, run[1]))
+                           for sc, run in zip(scripts, runs)])
+    nsteps = 0
+    both = [(sc, r, False) for sc, r in zip(scripts, runs)] + \
+           [(sc, r, True) for sc, r in zip(scripts, runs_obs)]
+    for sc, (out, fields, stale), observed in both:
+        rc, txt = res[f"c02_h_{sc['ci']}"]
+        if rc != 0:
+            dis.append({'what': 'ModelHist model evaluation failed', 'log': txt[-1500:]})
+            continue
+        ans = V.eval_answers(txt)
+        codes = [int(x) for x in __import__('re').findall(r'-?\d+', ans[0])]
+        vals = V.parse_cpairs(ans[1])
+        ncell = int(np.prod(sc['shape']))
+        k = 0
+        done = False
+        if stale:
+            dis.append({'what': 'a VolumeModel built earlier changed through later operations on the Model',
+                        'case': _h_brief(sc), 'which_build': stale[0]})
+        for si, (op, (code, co, _)) in enumerate(zip(sc['ops'], out)):
+            nsteps += 1
+            kind = op[0] if op[0] != 'set' else ('set_scalar' if np.isscalar(op[2]) else 'set_array')
+            hist[kind + ':' + ['ok', 'rejected', 'none', 'build'][code]] = \
+                hist.get(kind + ':' + ['ok', 'rejected', 'none', 'build'][code], 0) + 1
+            if code != codes[si]:
+                dis.append({'what': 'Model history: outcome of an operation differs from Model/ModelHist.v',
+                            'case': _h_brief(sc), 'step': si, 'op': _h_describe(op, sc['freqs']),
+                            'impl': code, 'model': codes[si]})
+                break
+            if code != 3:
+                continue
+            for c in range(ncell):
+                idx = np.unravel_index(c, sc['shape'], order='F')
+                for j in range(4):
+                    re_, im_ = vals[k]
+                    k += 1
+                    m = complex(float(re_), float(im_))
+                    if not done and abs(complex(co[j][idx]) - m) > 1e-12 * max(abs(m), 1e-300):
+                        done = True
+                        dis.append({'what': 'Model history: VolumeModel coefficient differs from the '
+                                            'formula on the current arrays (Model/ModelHist.v)',
+                                    'case': _h_brief(sc), 'step': si,
+                                    'attributes_read_between_steps': observed,
+                                    'history': [_h_describe(o, sc['freqs']) for o in sc['ops'][:si + 1]][-6:],
+                                    'cell': [int(x) for x in idx],
+                                    'which': ['eta_x', 'eta_y', 'eta_z', 'zeta'][j],
+                                    'impl': str(co[j][idx]), 'model': str(m)})
+    return scripts, nsteps
+
+
 def correspondence(ctx):
     rng = ctx.rng
     n = 48 if ctx.thorough else 12
@@ -245,16 +541,24 @@ def correspondence(ctx):
                                 'model': str(mv[bad[0]])})
         seen.add((c['shape'], c['cplx']))
     nvm, nvm_nt, vm_samples = check_volume_model(ctx, 32 if ctx.thorough else 8, dis)
+    hist = {}
+    hscripts, hsteps = check_model_history(ctx, 24 if ctx.thorough else 8, dis, hist)
     return {
-        'evaluations': len(cases) * 2 + nvm,
-        'distinct_nontrivial': len(seen) + nvm_nt,
+        'evaluations': len(cases) * 2 + nvm + hsteps,
+        'distinct_nontrivial': len(seen) + nvm_nt + len(hscripts),
         'rule': "kernel cases: random shape 2..4^3 (thorough: plus fixed extremes), dyadic widths, "
                 "dense random dyadic PEC field, random coefficients, real/complex alternating; "
                 "distinct = distinct (shape, dtype); each runs compiled kernel and .py_func against "
                 "the generated Coq model on exact rationals. VolumeModel cases: random anisotropy "
-                "case/mu_r/eps_r/frequency-or-Laplace; non-trivial = not (isotropic, no mu_r, no eps_r)",
-        'samples': [K.brief(c) for c in cases[:3]] + vm_samples,
-        'traces_validated_against_impl': len(cases) * 2 + nvm,
+                "case/mu_r/eps_r/frequency-or-Laplace; non-trivial = not (isotropic, no mu_r, no eps_r). "
+                "History stream: ONE Model per history, option classes (anisotropy x mapping x mu_r form x "
+                "epsilon_r form: scalar-1 placeholder / ones / random / None) enumerated, every parameter "
+                "modified by slicing, setter (array, scalar), augmented assignment, rejected assignment, "
+                "writes to absent parameters; a VolumeModel after every step (two re-used fields, frequency "
+                "and Laplace) compared with Model/ModelHist.v on the same history",
+        'samples': [K.brief(c) for c in cases[:3]] + vm_samples + [_h_brief(sc) for sc in hscripts[:2]],
+        'traces_validated_against_impl': len(cases) * 2 + nvm + len(hscripts),
+        'histogram': {'history_steps': hist},
         'disagreements': dis,
     }
 
@@ -438,11 +742,122 @@ def search_volume_model(rng):
     return None
 
 
+H_SIG = "VolumeModel coefficients are not those of the Model's current arrays (history on one Model)"
+
+
+def history_oracle(sc):
+    """Independent numpy oracle for one history: tracks the CURRENT arrays by the
+    documented semantics of each operation and requires, after every step, the
+    documented outcome, the model's arrays, and for a VolumeModel
+    eta = -s mu0 V (sigma + s eps0 eps_r), zeta = V / mu_r on those arrays."""
+    import scipy.constants as spc
+    for observe in (False, True):
+        h = _history_oracle(sc, observe)
+        if h:
+            return h
+    return None
+
+
+def _history_oracle(sc, observe):
+    import scipy.constants as spc
+    shape = sc['shape']
+    out, fields, stale = history_run_impl(sc, observe)
+    cur = {nm: (None if sc['init'].get(nm) is None else _h_full(sc['init'][nm], shape))
+           for nm in H_PN}
+    vol = np.multiply.outer(np.multiply.outer(sc['hs'][0], sc['hs'][1]), sc['hs'][2])
+    fns = {'mul': np.multiply, 'add': np.add, 'sub': np.subtract, 'div': np.divide}
+
+    def hit(si, **kw):
+        h = {'signature': H_SIG, 'ci': sc['ci'], 'hseed': sc['hseed'], 'shape': list(shape),
+             'grid_widths': sc['hs'],
+             'construction': "Model(grid, " + ", ".join(
+                 f"{k}={(v if np.isscalar(v) else np.asarray(v).tolist())!r}"
+                 for k, v in sc['init'].items() if v is not None)
+             + f", mapping={'Resistivity' if sc['resist'] else 'Conductivity'!r})",
+             'history': [_h_describe(o, sc['freqs']) for o in sc['ops'][:si + 1]], 'step': si,
+             'attributes_read_between_steps': observe}
+        h.update(kw)
+        return h
+    for si, (op, (code, co, arrays)) in enumerate(zip(sc['ops'], out)):
+        want = 0
+        if op[0] == 'build':
+            want = 3
+        else:
+            nm = H_PN[op[1]]
+            if cur[nm] is None:
+                want = 2
+            elif op[0] == 'slice':
+                cur[nm][op[3]] = op[4]
+            elif op[0] == 'set':
+                v = _h_full(op[2], shape)
+                if np.all(v > 0) and np.all(np.isfinite(v)):
+                    cur[nm] = v
+                else:
+                    want = 1
+            else:
+                cur[nm] = fns[op[2]](cur[nm], op[3])
+                want = 0 if np.all(cur[nm] > 0) else 1
+        if code != want:
+            return hit(si, what='outcome of the last operation',
+                       observed=['returned', 'ValueError (rejected)', 'error: parameter is None',
+                                 'VolumeModel'][code],
+                       required=['returns', 'is rejected with ValueError', 'fails: parameter is None',
+                                 'VolumeModel'][want])
+        for nm, a in zip(H_PN, arrays if arrays is not None else []):
+            if (a is None) != (cur[nm] is None) or (a is not None and not
+                                                    np.allclose(a, cur[nm], rtol=1e-13, atol=0)):
+                return hit(si, what=f'model.{nm} after the last operation',
+                           observed=None if a is None else a.tolist(),
+                           required=None if cur[nm] is None else cur[nm].tolist())
+        if want != 3:
+            continue
+        f = fields[op[1]]
+        sv = complex(f.sval)
+        eps = cur['epsilon_r'] if cur['epsilon_r'] is not None else 0.0
+        req = {}
+        for d, nm in zip('xyz', H_PN[:3]):
+            pr = cur[nm] if cur[nm] is not None else cur['property_x']
+            sig = 1.0 / pr if sc['resist'] else pr
+            req['eta_' + d] = -sv * spc.mu_0 * vol * (sig + sv * spc.epsilon_0 * eps)
+        req['zeta'] = (vol / cur['mu_r'] if cur['mu_r'] is not None else vol) + 0j
+        for j, nm in enumerate(('eta_x', 'eta_y', 'eta_z', 'zeta')):
+            err = np.abs(co[j] - req[nm])
+            if np.max(err - 1e-10 * np.abs(req[nm])) > 0:
+                k = np.unravel_index(np.argmax(err / np.abs(req[nm])), shape)
+                return hit(si, what=f'{nm} of the VolumeModel built in the last step',
+                           cell=[int(x) for x in k], observed=str(co[j][k]), required=str(req[nm][k]),
+                           current_arrays={n_: (None if a is None else a.tolist())
+                                           for n_, a in cur.items()})
+    if stale:
+        return hit(len(sc['ops']) - 1, what='a VolumeModel built earlier changed through later '
+                   'operations on the Model', which_build=stale[0])
+    return None
+
+
+def search_model_history(ctx, broken):
+    todo = []
+    for b in broken or []:
+        c = b.get('detail', {}).get('case') if isinstance(b.get('detail'), dict) else None
+        if isinstance(c, dict) and 'hseed' in c and (c['ci'], c['hseed']) not in todo:
+            todo.append((c['ci'], c['hseed']))
+    n = 40 if ctx.thorough else 16
+    todo += [(ci, ctx.rng.randint(0, 2**30)) for ci in range(n)]
+    for ci, hseed in todo:
+        h = history_oracle(history_script(ci, hseed))
+        if h:
+            return h
+    ctx.notes.append(f"searcher: {len(todo)} histories on one Model each (numpy oracle on the current arrays)")
+    return None
+
+
 def search(ctx, broken):
     rng = ctx.rng
     n = 60 if ctx.thorough else 25
     hits = []
     h = search_volume_model(rng)
+    if h:
+        return [h]
+    h = search_model_history(ctx, broken)
     if h:
         return [h]
     combos = [((2, 2, 2), False, 0), ((3, 2, 4), True, 3), ((4, 4, 3), True, 1),
@@ -461,6 +876,8 @@ def search(ctx, broken):
 
 def replay(ctx, payload):
     fi = payload.get('failing_input')
+    if fi and 'hseed' in fi:
+        return history_oracle(history_script(fi['ci'], fi['hseed'])) is None
     if fi and fi.get('signature', '').startswith('VolumeModel'):
         return search_volume_model(ctx.rng) is None
     if not fi or 'shape' not in fi:
